@@ -26,6 +26,8 @@ type FaultOpts struct {
 	Rank      int
 	Sample    int
 	MaxBatch  int
+	BigInsert bool  // insert batches of MaxBatch/2..MaxBatch fresh points, every other one with a tail that must be rejected
+	probe     []int // ids read back after every trial in BigInsert mode
 }
 
 func copyFile(src, dst string) error {
@@ -48,6 +50,15 @@ func copyFile(src, dst string) error {
 // observeAll logs the observations that must answer "as if the batch had
 // never been issued" (or with all its effects).
 func (r *Runner) observeAll(leaves []Q, o FaultOpts) {
+	if o.BigInsert {
+		// thousands of points per batch: the count, and a read of some ids of the
+		// batch and some stored ones
+		r.Count()
+		ids := append([]int{}, o.probe...)
+		sort.Ints(ids)
+		r.Get(ids)
+		return
+	}
 	r.Count()
 	r.Get(r.allIDs())
 	r.GraphProj()
@@ -263,6 +274,23 @@ func (r *Runner) sampleKs(n int64, max int) []int64 {
 	return out
 }
 
+// genBigInsert: many fresh points in one insert; every other batch ends in a
+// point that must be refused (an id that is already stored), so that the
+// refusal comes after most of the batch has been processed.
+func (r *Runner) genBigInsert(no int) Batch {
+	n := r.MaxBatch/2 + r.R.Intn(r.MaxBatch/2+1)
+	var pts []GenPoint
+	for _, id := range r.pickFresh(n) {
+		pts = append(pts, r.gen(id, false, 0.9))
+	}
+	if no%2 == 1 {
+		if live := r.pickIDs(1, 1); len(live) == 1 && r.believedLive[live[0]] {
+			pts = append(pts, r.gen(live[0], false, 0.9))
+		}
+	}
+	return Batch{Kind: "insert", Pts: pts}
+}
+
 // RunFaultHistory: for every batch of a random history first try it under
 // every (sampled) storage fault and kill point on copies of the database, then
 // apply it for real.
@@ -275,6 +303,30 @@ func (r *Runner) RunFaultHistory(histNo int, o FaultOpts) error {
 	leaves := r.Cfg.LeafQueries()
 	for b := 0; b < o.Batches; b++ {
 		batch := r.GenBatch()
+		if o.BigInsert {
+			batch = r.genBigInsert(b)
+			// first, middle and last points of the batch (a batch cut into pieces shows at the front) and some stored ids
+			o.probe = nil
+			seen := map[int]bool{}
+			add := func(id int) {
+				if !seen[id] {
+					seen[id] = true
+					o.probe = append(o.probe, id)
+				}
+			}
+			n := len(batch.Pts)
+			for _, k := range []int{0, 1, 2, n / 4, n / 2, n - 3, n - 2, n - 1} {
+				if k >= 0 && k < n {
+					add(batch.Pts[k].ID)
+				}
+			}
+			for i := 0; i < 12 && n > 0; i++ {
+				add(batch.Pts[r.R.Intn(n)].ID)
+			}
+			for _, id := range r.pickIDs(10, 1) {
+				add(id)
+			}
+		}
 		// learn the number of storage operations of this batch
 		n, err := r.trial(batch, proxy.Plan{}, "count", leaves, o)
 		if err != nil {
